@@ -54,8 +54,10 @@ func (c08Stream) Generate(rng *rand.Rand, n int, thorough bool) []Case {
 		if rng.Intn(3) == 0 {
 			ending = "mixed"
 		}
-		cs = append(cs, Case{Line: fmt.Sprintf("c08 conns=%d ending=%s inflight=%s mode=%s seed=%d", k, ending,
-			[]string{"none", "blocked", "writing", "racing", "panicking", "goexit"}[rng.Intn(6)], []string{"plain", "plain", "tls", "starttls"}[rng.Intn(4)], rng.Intn(1<<30)), Kind: ending})
+		// (dupid: a careless client uses ONE message id for all its requests in flight, and a third one with the same id
+		// is answered at once while the other two are still being handled)
+		cs = append(cs, Case{Line: fmt.Sprintf("c08 conns=%d ending=%s inflight=%s mode=%s seed=%d dupid=%d", k, ending,
+			[]string{"none", "blocked", "writing", "racing", "panicking", "goexit"}[rng.Intn(6)], []string{"plain", "plain", "tls", "starttls"}[rng.Intn(4)], rng.Intn(1<<30), rng.Intn(3)/2), Kind: ending})
 	}
 	return cs
 }
@@ -362,6 +364,7 @@ func (c08Stream) Impl(c Case) string {
 		return c08Burst(atoi(p["conns"]), p["mode"], int64(atoi(p["seed"])))
 	}
 	k, ending, inflight, mode := atoi(p["conns"]), p["ending"], p["inflight"], p["mode"]
+	dupid := p["dupid"] == "1"
 	rng := rand.New(rand.NewSource(int64(atoi(p["seed"]))))
 	tlsConfigs()
 	runtime.GC()
@@ -403,7 +406,9 @@ func (c08Stream) Impl(c Case) string {
 				// what t.FailNow / require.* do inside a handler: the goroutine ends, its deferred calls still run
 				runtime.Goexit()
 			}
-			if inflight == "blocked" {
+			if inflight == "blocked" && dupid && m.SizeLimit == 7 {
+				// the third request with the shared message id: answered at once
+			} else if inflight == "blocked" {
 				<-released
 			} else if inflight == "writing" {
 				// a handler that streams entries and (as handlers do) notices a dead connection only after a few
@@ -469,6 +474,14 @@ func (c08Stream) Impl(c Case) string {
 			if inflight != "none" {
 				for j := 0; j < 2; j++ {
 					r := Req{Kind: "search", ID: int64(10 + j), DN: tag, Scope: 2, Filter: "(cn=x)"}
+					if dupid && inflight == "blocked" {
+						r.ID = 10
+					}
+					nd, _ := r.Node()
+					buf = append(buf, nd.Ser()...)
+				}
+				if dupid && inflight == "blocked" {
+					r := Req{Kind: "search", ID: 10, DN: tag, Scope: 2, Filter: "(cn=x)", Size: 7}
 					nd, _ := r.Node()
 					buf = append(buf, nd.Ser()...)
 				}
